@@ -98,6 +98,7 @@ class Run:
         self.keep = []
         M.reset_uids()
         self.stale_writers = {}
+        self.view_pool = {}            # array uid -> {"shape", "views": [(DataView, index)]} (ops_data.check_old_views)
         self.ops = []
         self.trace = []
         self.stats = Counter()
@@ -147,6 +148,7 @@ class Run:
         self.pool.clear()
         self.link_handles.clear()
         self.stale_writers.clear()
+        self.view_pool.clear()
         del self.keep[:]
 
     # -------------------------------------------------------------------- handles
@@ -228,8 +230,15 @@ class Run:
         if k == "file":
             return self.files[m.path].real
         if k == "dim":
+            if via % 8 == 4 and self.pool.get(m.uid):
+                hs = self.pool[m.uid]
+                self.stats["dim_handle_pooled"] += 1
+                return hs[(self.step + len(hs)) % len(hs)]      # an older descriptor object
             arr = self.R(m.parent_, via)
-            return arr.dimensions[m.index - 1]
+            h = arr.dimensions[m.index - 1]
+            if len(self.pool.get(m.uid, ())) < 4:
+                self.remember(m, h)
+            return h
         via = via % 8
         if via == 4:
             hs = self.pool.get(m.uid)
